@@ -327,3 +327,9 @@ def r6(ctx):
         if feasible(p, ev, {"isinstance:%s" % apdu: "AbortPDU", "%s.apduType" % apdu: 7}) and p.term != "raise":
             names = [self_call(nd) for nd in path_nodes(p) if isinstance(nd, ast.Call) and self_call(nd)]
             ctx.check("ServerSSM.await_response:abort", names.count("set_state") == 1 and names.count("request") == 1, where(c.module, f), "a client abort must end the transaction and be passed to the application")
+
+
+@rule("C11.R7", "requests to one peer are serialised by a per-peer queue that is forgotten only when it is idle, and each completion is applied to the request that is active for that peer", floor=12, engines="E1 paths + E5 (shared with C04.R6)")
+def r7(ctx):
+    from . import c04
+    c04.r6(ctx)
